@@ -8,7 +8,7 @@ use refimpl::wire::{self, FpUpdate, Rect};
 use serde::{Deserialize, Serialize};
 
 pub const LEVEL: &str = "exploration";
-pub const RULE: &str = "case = sequence of 1..8 fast-path output PDUs, each with 0..6 updates (bitmap with 0..5 rectangles, synchronize, pointer-null, well-formed colour pointer, and unsupported/unknown update codes), every rectangle field a boundary-biased u16, flags in {0, 0x0001 with TS_CD_HEADER, 0x0401, 0x0400}, data lengths 0..largest that fits, short and long fast-path length forms, free numEvents/flag bits. Oracle: the list of RdpEvent::Bitmap values passed to the callback equals, element for element and in order, the rectangles of the reference fast-path description (position, size, bpp, compression bit, data); no other event is produced; every read returns Ok. Non-trivial = a PDU with >= 2 updates, >= 2 rectangles, or a non-bitmap update before a bitmap one; distinct by hash of the case.";
+pub const RULE: &str = "aligned-sizes: PDUs whose frame / body / bitmap data size is 1024, 1500, 2048, 4096, k x 8192, 32764 (+-3), each followed by further PDUs already in the stream (queued delivery: a reader that reads too far swallows the next PDU); after-malformed-update: a bitmap-coded update whose updateType is not 1 (what the client makes of that PDU is not asserted; if it goes on, the following PDUs must be exact). case = sequence of 1..8 fast-path output PDUs, each with 0..6 updates (bitmap with 0..5 rectangles, synchronize, pointer-null, well-formed colour pointer, and unsupported/unknown update codes), every rectangle field a boundary-biased u16, flags in {0, 0x0001 with TS_CD_HEADER, 0x0401, 0x0400}, data lengths 0..largest that fits, short and long fast-path length forms, free numEvents/flag bits. Oracle: the list of RdpEvent::Bitmap values passed to the callback equals, element for element and in order, the rectangles of the reference fast-path description (position, size, bpp, compression bit, data); no other event is produced; every read returns Ok. Non-trivial = a PDU with >= 2 updates, >= 2 rectangles, or a non-bitmap update before a bitmap one; distinct by hash of the case.";
 
 #[derive(Serialize, Deserialize, Hash, Clone, Debug)]
 pub struct Pdu {
@@ -22,6 +22,15 @@ pub struct Case {
     pub pdus: Vec<Pdu>,
     pub chunk: u16,
     pub user_id: u16,
+    /// all PDUs are in the stream before the first read (what follows a PDU is then visible to a reader that reads too far)
+    #[serde(default)]
+    pub queued: bool,
+}
+
+/// a PDU with a bitmap-coded update that is not a bitmap update (updateType != 1): what the client makes of that PDU is
+/// not asserted (it may skip the update, drop the PDU or fail), but if it goes on, the PDUs after it must be exact
+fn is_hostile(p: &Pdu) -> bool {
+    p.updates.iter().any(|u| matches!(u, FpUpdate::Other { code, .. } if code & 0xF == 1))
 }
 
 #[derive(Debug, PartialEq, Eq)]
@@ -69,19 +78,37 @@ pub fn run(c: &Case) -> Outcome {
     let mut want: Vec<Ev> = Vec::new();
     let mut got: Vec<Ev> = Vec::new();
     let mut others = 0usize;
+    if c.queued {
+        out.label("queued");
+        for p in c.pdus.iter() {
+            let frame = wire::fast_path_pdu(&p.updates, p.first, p.long_len);
+            if frame.bytes.len() <= 0x7FFF {
+                h.borrow_mut().push(&frame.bytes);
+            }
+        }
+    }
     for (i, p) in c.pdus.iter().enumerate() {
         let frame = wire::fast_path_pdu(&p.updates, p.first, p.long_len);
         if frame.bytes.len() > 0x7FFF {
             continue;
         }
-        for u in &p.updates {
-            if let FpUpdate::Bitmap(rects) = u {
-                for r in rects {
-                    want.push(Ev { l: r.left, t: r.top, r: r.right, b: r.bottom, w: r.width, h: r.height, bpp: r.bpp, comp: r.flags & 1 != 0, data: r.data.clone() });
+        let hostile = is_hostile(p);
+        if hostile {
+            out.label("malformed-bitmap-update");
+        }
+        let got_before = got.len();
+        if !hostile {
+            for u in &p.updates {
+                if let FpUpdate::Bitmap(rects) = u {
+                    for r in rects {
+                        want.push(Ev { l: r.left, t: r.top, r: r.right, b: r.bottom, w: r.width, h: r.height, bpp: r.bpp, comp: r.flags & 1 != 0, data: r.data.clone() });
+                    }
                 }
             }
         }
-        h.borrow_mut().push(&frame.bytes);
+        if !c.queued {
+            h.borrow_mut().push(&frame.bytes);
+        }
         let (r, _) = call(|| {
             conn.client.read(|e| match e {
                 RdpEvent::Bitmap(b) => got.push(Ev { l: b.dest_left, t: b.dest_top, r: b.dest_right, b: b.dest_bottom, w: b.width, h: b.height, bpp: b.bpp, comp: b.is_compress, data: b.data }),
@@ -89,7 +116,16 @@ pub fn run(c: &Case) -> Outcome {
             })
         });
         match r {
-            Res::Ok(()) => {}
+            Res::Ok(()) => {
+                if hostile {
+                    // whatever it delivered for the malformed PDU is not asserted
+                    got.truncate(got_before);
+                }
+            }
+            Res::Err(_) if hostile => {
+                // a refusal ends the session: nothing further is asserted
+                return out;
+            }
             Res::Err(e) => {
                 out.fail("fastpath:read-error", format!("read of fast-path PDU #{} failed: {}; frame {}", i, e, hexs(&frame.bytes)));
                 return out;
@@ -152,10 +188,15 @@ fn gen_update(s: &mut Src, budget: &mut usize) -> FpUpdate {
         }
         _ => {
             // orders, palette, surface commands, pointer position, cached / new pointer, default pointer, undefined codes
-            let code = s.pick(&[0u8, 2, 4, 6, 8, 0xA, 0xB, 7, 0xC, 0xD, 0xE, 0xF]);
+            let code = s.pick(&[0u8, 2, 4, 6, 8, 0xA, 0xB, 7, 0xC, 0xD, 0xE, 0xF, 1]);
             let l = s.below(24).min(*budget);
             *budget = budget.saturating_sub(l + 3);
-            FpUpdate::Other { code, body: s.fill(l) }
+            let mut body = s.fill(l);
+            if code == 1 && body.len() >= 2 && body[0] == 1 && body[1] == 0 {
+                // must not be a bitmap update by accident
+                body[0] = 2;
+            }
+            FpUpdate::Other { code, body }
         }
     }
 }
@@ -168,7 +209,7 @@ fn many_case(n_updates: usize, n_rects: usize, user_id: u16) -> Case {
         updates.push(if i % 3 == 0 { FpUpdate::Bitmap(vec![tiny(i)]) } else if i % 3 == 1 { FpUpdate::Synchronize } else { FpUpdate::PointerNull });
     }
     updates.push(FpUpdate::Bitmap((0..n_rects).map(|i| tiny(10_000 + i)).collect()));
-    Case { pdus: vec![Pdu { updates, first: 0, long_len: true }, Pdu { updates: vec![FpUpdate::Bitmap(vec![tiny(7)])], first: 0, long_len: false }], chunk: 0, user_id }
+    Case { pdus: vec![Pdu { updates, first: 0, long_len: true }, Pdu { updates: vec![FpUpdate::Bitmap(vec![tiny(7)])], first: 0, long_len: false }], chunk: 0, user_id, queued: false }
 }
 
 pub fn decode(s: &mut Src) -> Case {
@@ -179,6 +220,7 @@ pub fn decode(s: &mut Src) -> Case {
         let (nu, nr) = if nu * 8 + nr * 20 > 0x7000 { (nu.min(2), nr.min(900)) } else { (nu, nr) };
         return many_case(nu, nr, 1004);
     }
+    let queued = s.chance(100);
     let n = 1 + s.below(8);
     let mut pdus = Vec::new();
     for _ in 0..n {
@@ -187,7 +229,7 @@ pub fn decode(s: &mut Src) -> Case {
         let updates = (0..k).map(|_| gen_update(s, &mut budget)).collect();
         pdus.push(Pdu { updates, first: s.u8() & 0x3C, long_len: s.bool() });
     }
-    Case { pdus, chunk: s.pick(&[0u16, 0, 1, 5, 1460]), user_id: s.pick(&[1004u16, 1001, 65535, 0x8000]) }
+    Case { pdus, chunk: s.pick(&[0u16, 0, 1, 5, 1460]), user_id: s.pick(&[1004u16, 1001, 65535, 0x8000]), queued }
 }
 
 /// the same streams through the real entry point: Connector::connect over TLS, fast-path PDUs sent by the server
@@ -265,9 +307,60 @@ pub fn check(rep: &Report) {
         many.push(many_case(n.min(1200), 3, 1004));
     }
     rep.list("many-elements", many, run);
+    // PDUs whose size sits on round numbers (frame, body and bitmap data sizes of 2^k, k x 8192, 1500 ...), each followed by
+    // another PDU that is already in the stream
+    let mut aligned = Vec::new();
+    let one = |len: usize, i: u16| FpUpdate::Bitmap(vec![Rect { left: i, top: 1, right: i + 3, bottom: 2, width: 4, height: 2, bpp: 32, flags: 0, cd_scan_width: 0, cd_uncompressed: 0, data: (0..len).map(|j| (j as u8) ^ (i as u8)).collect() }]);
+    let overhead = wire::fast_path_pdu(&[one(0, 0)], 0, true).bytes.len();
+    for target in [1024usize, 1500, 2048, 4096, 8192, 12288, 16384, 24576, 32764] {
+        for delta in [-3i64, -2, -1, 0, 1, 2, 3] {
+            // the target is met once by the frame, once by the body behind the 3-byte header, once by the data itself
+            for adjust in [overhead as i64, overhead as i64 - 3, 0] {
+                let len = target as i64 + delta - adjust;
+                if len < 0 || len as usize + overhead > 0x7FFF {
+                    continue;
+                }
+                let pdus = vec![
+                    Pdu { updates: vec![one(len as usize, 1)], first: 0, long_len: true },
+                    Pdu { updates: vec![one(8, 2)], first: 0, long_len: false },
+                    Pdu { updates: vec![one(len as usize, 3), FpUpdate::Synchronize], first: 0, long_len: true },
+                    Pdu { updates: vec![one(8, 4)], first: 0, long_len: true },
+                ];
+                for (queued, chunk) in [(true, 0u16), (true, 1460), (false, 0)] {
+                    aligned.push(Case { pdus: pdus.clone(), chunk, user_id: 1004, queued });
+                }
+            }
+        }
+    }
+    rep.list("aligned-sizes", aligned, run);
+    // a bitmap-coded update that is not a bitmap update, followed by valid ones in later PDUs (twice, with the same and with another type)
+    let mut mal = Vec::new();
+    for ty in [0u8, 2, 3, 0xFF] {
+        for second in [ty, ty ^ 1] {
+            for body_len in [2usize, 4, 30] {
+                let bad = |t: u8| {
+                    let mut b = vec![t, 0];
+                    b.resize(body_len, 0x11);
+                    FpUpdate::Other { code: 1, body: b }
+                };
+                let pdus = vec![
+                    Pdu { updates: vec![one(8, 1)], first: 0, long_len: false },
+                    Pdu { updates: vec![bad(ty)], first: 0, long_len: false },
+                    Pdu { updates: vec![one(8, 2)], first: 0, long_len: false },
+                    Pdu { updates: vec![bad(second)], first: 0, long_len: false },
+                    Pdu { updates: vec![one(12, 3), one(4, 4)], first: 0, long_len: false },
+                    Pdu { updates: vec![one(8, 5)], first: 0, long_len: false },
+                ];
+                mal.push(Case { pdus, chunk: 0, user_id: 1004, queued: false });
+            }
+        }
+    }
+    rep.list("after-malformed-update", mal, run);
     rep.random("streams", rep.tier.n(60_000, 4_000_000), 400, decode, run);
     crate::tls::pki();
     rep.random("tls", rep.tier.n(300, 10_000), 300, decode, run_tls);
     rep.require("streams", "non-bitmap-before-bitmap", 1000);
     rep.require("streams", "multi-bitmap-update", 1000);
+    rep.require("streams", "queued", 1000);
+    rep.require("streams", "malformed-bitmap-update", 500);
 }
